@@ -20,7 +20,7 @@ from lib import common as C
 
 ID = "C08"
 PROP_MODULES = ["GPVerif.Props.C08"]
-BUILD_TARGETS = ["GPVerif.Props.C08", "GPVerif.Model.BatchOps", "GPVerif.Gen.BatchChoreo"]
+BUILD_TARGETS = ["GPVerif.Props.C08", "GPVerif.Model.BatchOps", "GPVerif.Model.ObjectiveIR", "GPVerif.Gen.BatchChoreo"]
 GEN = os.path.join(C.LEAN_DIR, "GPVerif", "Gen", "BatchChoreo.lean")
 _state = {}
 
@@ -136,7 +136,11 @@ RULE = ("batch shapes: all of rank 0..2 with sizes in {1,2,3} (13 shapes) on par
         "broadcastable pair (quick: a covering subset per module family in which every shape occurs on both sides and "
         "every rank pair occurs; thorough: all pairs); values sampled from the seed; distinct = (family, parameter "
         "batch, data batch, observable); non-trivial = the broadcast batch has more than one element or a broadcast "
-        "(size-1 / missing) dimension")
+        "(size-1 / missing) dimension; objectives: every class of gpytorch.mlls applicable to the model family (exact MLL, LOO, "
+        "ELBO, ELBO with combine_terms=False, PLL, GammaRobust, DeepApproximateMLL, SumMLL over exact / LOO members); NaN "
+        "policies: ignore / mask / fill x a different NaN pattern per batch element (1, 2, 0, 1, ... missing points); model-list "
+        "histories: (members 2-3) x (member batch) x (pre-update reads: all / props / train / eval / none) x (update: targets, "
+        "inputs, both, resize, load_state_dict) on one object")
 EXHAUSTIVE = True
 TRUSTED = ["modelled not verified: torch's broadcasting / view / expand semantics (validated exactly in part (a))",
            "linear_operator Cholesky / solves inside the exact and variational models (fast_computations off)"]
@@ -444,7 +448,8 @@ def kernel_families():
 # observables that contain the log-prior terms.  The known finding `*:param-batch-rank-below-broadcast-rank` is the
 # class: a model WITH priors whose parameter batch rank is smaller than the broadcast (data) batch rank, observed at
 # one of these objectives — and nothing else.
-PRIOR_OBS = ("exact MLL", "ELBO", "PLL")
+PRIOR_OBS = ("exact MLL", "LOO", "ELBO", "PLL", "GammaRobust", "ELBO terms (combine_terms=False)", "DeepELBO (mean over batch dim 0)")
+_TIE = []   # (driver line, record) pairs produced inside the part_b_* functions; drained by `correspondence`
 
 
 def rank_deficient_prior_cell(fam, what, pb, bs):
@@ -907,6 +912,13 @@ def part_b_exact(ctx, T, pairs):
                     obs["exact MLL"] = gpytorch.mlls.ExactMarginalLogLikelihood(mod.likelihood, mod)(mod(tx), ty)
             except Exception as e:
                 raised(ctx, fam, pb, db, bs, e, rp, what="exact MLL")
+            try:       # the other exact objective class of gpytorch.mlls
+                with torch.no_grad(), gpytorch.settings.fast_computations(False, False, False), \
+                        gpytorch.settings.max_cholesky_size(10000), warnings.catch_warnings():
+                    warnings.simplefilter("ignore")
+                    obs["LOO"] = gpytorch.mlls.LeaveOneOutPseudoLikelihood(mod.likelihood, mod)(mod(tx), ty)
+            except Exception as e:
+                raised(ctx, fam, pb, db, bs, e, rp, what="LOO")
             cache = {}
 
             def rep(pf, df, which, e_holder=[0]):
@@ -923,6 +935,7 @@ def part_b_exact(ctx, T, pairs):
                         out = r(r.train_inputs[0])
                         o["prior mean"], o["prior covariance"] = out.mean, out.covariance_matrix
                         o["exact MLL"] = gpytorch.mlls.ExactMarginalLogLikelihood(r.likelihood, r)(out, r.train_targets)
+                        o["LOO"] = gpytorch.mlls.LeaveOneOutPseudoLikelihood(r.likelihood, r)(out, r.train_targets)
                         r.eval()
                         post = r(data_slice(xs, db, df, 2))
                         o["posterior mean"], o["posterior covariance"] = post.mean, post.covariance_matrix
@@ -930,7 +943,7 @@ def part_b_exact(ctx, T, pairs):
                     cache[key] = o
                 return cache[key][which]
             for what, val in obs.items():
-                ev = {"prior mean": 1, "posterior mean": 1, "exact MLL": 0}.get(what, 2)
+                ev = {"prior mean": 1, "posterior mean": 1, "exact MLL": 0, "LOO": 0}.get(what, 2)
                 try:
                     val = val.expand(torch.Size(tuple(bs) + tuple(val.shape[val.dim() - ev:])))
                 except RuntimeError:
@@ -944,11 +957,154 @@ def part_b_exact(ctx, T, pairs):
                     holder[0] += 1
                     return o
                 each_replica(ctx, fam, what, pb, db, tab, val, mk_out, rp)
+            # the GENERATED normaliser of the two exact objectives (Gen.BatchChoreo.looNormaliser / exactNormaliser) against
+            # the code: with v = res / N - c for the batched model (target (*bs, n)) and for the replica (target (n,)),
+            # (v_b + c) * N_batched = (r_b + c) * N_replica for every batch element b
+            if not prior:
+                import math
+                for w, what, c in ((0, "LOO", 0.5 * math.log(2 * math.pi)), (1, "exact MLL", 0.0)):
+                    have = [cache.get((pidx[e], didx[e], e)) for e in range(len(pidx))]
+                    if what in obs and tuple(obs[what].shape) == tuple(bs) and all(h is not None for h in have):
+                        _TIE.append((f"norm {w} | {shp(tuple(bs) + (n,))}",
+                                     ("norm", (what, c, obs[what].reshape(-1).tolist(), [h[what].item() for h in have]), rp)))
+
+
+# ------------------------------------------------------------------ batched exact GPs under every observation_nan_policy
+
+NAN_PAIRS_QUICK = [((2,), (2,)), ((3,), ()), ((), (3,)), ((2, 3), (2, 3)), ((2, 1), (1, 3)), ((3,), (2, 1)), ((1, 2), (2,)),
+                   ((2, 2), (2,))]
+POLICIES = ("ignore", "mask", "fill")
+
+
+def nan_patterns(label, E, n):
+    """one NaN pattern (sorted point indices) per broadcast batch element: consecutive elements miss 1, 2, 0, 1, … of the
+    first n-2 points, so the patterns DIFFER between elements, every third element is fully observed and even the union of
+    all patterns leaves two points observed"""
+    import torch
+    g = _gen(label)
+    return [sorted(torch.randperm(n - 2, generator=g)[:(e + 1) % 3].tolist()) for e in range(E)]
+
+
+def part_b_nan(ctx, T, pairs, only=None):
+    """Batched exact GP whose training targets carry a DIFFERENT NaN pattern in every batch element, under each
+    `observation_nan_policy`.  Element b is judged against the non-batched replica b evaluated under the same policy with
+    ITS OWN pattern ('ignore', 'fill': per element) resp. with the union of all patterns ('mask' is documented to delete a
+    point that is missing in any batch element).  Observables: posterior mean / covariance, predictive covariance, the exact
+    MLL ('fill' is rejected by the class), `likelihood.expected_log_prob` / `log_marginal` of the prior."""
+    import torch
+    import gpytorch
+    Model = _exact_model_cls()
+    n, m = 5, 3
+    fam = "exact_gp_nan"
+    nan = float("nan")
+    for pb, db in pairs:
+        tab = T.get(pb, db)
+        bs, pidx, didx = tab
+        E = len(pidx)
+        if E < 2:
+            continue
+        g = _gen(f"nan:{pb}:{db}")
+        tx, xs = _randn(g, *db, n, D_IN), _randn(g, *db, m, D_IN)
+        ty = _randn(g, *bs, n)
+        pats = nan_patterns(f"nanpat:{pb}:{db}", E, n)
+        union = sorted(set().union(*[set(p_) for p_ in pats]))
+        tyn = ty.clone().reshape(E, n)
+        for e, pt in enumerate(pats):
+            if pt:
+                tyn[e, pt] = nan
+        tyn = tyn.reshape(*bs, n)
+
+        def build(b, tx_, ty_):
+            return Model(tx_, ty_, make_lik(b, False), b).double()
+        for policy in POLICIES:
+            if only is not None and policy != only:
+                continue
+            rp = {"part": "nan", "family": fam, "param_batch": list(pb), "data_batch": list(db), "policy": policy,
+                  "nan_patterns": pats, "round": _SALT[0]}
+
+            def observe(mdl, xs_, tx_, ty_):
+                o = {}
+                with torch.no_grad(), gpytorch.settings.fast_computations(False, False, False), \
+                        gpytorch.settings.max_cholesky_size(10000), gpytorch.settings.observation_nan_policy(policy), \
+                        warnings.catch_warnings():
+                    warnings.simplefilter("ignore")
+                    mdl.eval()
+                    post = mdl(xs_)
+                    o["posterior mean"], o["posterior covariance"] = post.mean, post.covariance_matrix
+                    o["predictive covariance"] = mdl.likelihood(post).covariance_matrix
+                    if policy == "fill" and mdl.prediction_strategy is not None:
+                        o["_mean_cache"] = mdl.prediction_strategy.mean_cache
+                    mdl.train()
+                    prior = mdl(tx_)
+                    if policy != "fill":
+                        o["exact MLL"] = gpytorch.mlls.ExactMarginalLogLikelihood(mdl.likelihood, mdl)(prior, ty_)
+                    if policy != "ignore":      # under 'ignore' torch's Normal rejects NaN observations (validate_args)
+                        o["expected_log_prob"] = mdl.likelihood.expected_log_prob(ty_, prior)
+                        o["log_marginal"] = mdl.likelihood.log_marginal(ty_, prior)
+                return o
+            mod = build(pb, tx, tyn)
+            randomize(mod, f"nanp:{pb}")
+            try:
+                obs = observe(mod, xs, tx, tyn)
+            except Exception as e:
+                raised(ctx, fam, pb, db, bs, e, rp, what=f"[{policy}]")
+                continue
+            mc = obs.pop("_mean_cache", None)
+            if policy == "fill":
+                # the GENERATED 'fill' masks (Gen.BatchChoreo.*FillMask) against what the code worked with: the mean cache is NaN
+                # exactly at the entries the code treated as missing; the per-point likelihood terms are exactly 0 there
+                bits = ",".join("1" if v else "0" for v in torch.isnan(tyn).reshape(-1).tolist())
+                for site, val in ((0, None if mc is None else ~torch.isnan(mc)), (2, obs["expected_log_prob"] != 0),
+                                  (3, obs["log_marginal"] != 0)):
+                    if val is not None and tuple(val.shape) == tuple(tyn.shape):
+                        _TIE.append((f"fillmask {site} | {shp(tuple(tyn.shape))} | {bits}",
+                                     ("fillmask", (site, [int(v) for v in val.reshape(-1).tolist()]), rp)))
+            cache = {}
+
+            def rep_all(pf, df, e):
+                t_e = ty.reshape(E, n)[e].clone()
+                miss = union if policy == "mask" else pats[e]
+                if miss:
+                    t_e[miss] = nan
+                r = build((), data_slice(tx, db, df, 2), t_e)
+                load_slice(mod, r, pb, pf)
+                return observe(r, data_slice(xs, db, df, 2), data_slice(tx, db, df, 2), t_e)
+            for what, val in obs.items():
+                ev = {"posterior mean": 1, "exact MLL": 0, "expected_log_prob": 1, "log_marginal": 1}.get(what, 2)
+                try:
+                    val = val.expand(torch.Size(tuple(bs) + tuple(val.shape[val.dim() - ev:])))
+                except RuntimeError:
+                    pass
+                holder = [0]
+
+                def mk_out(pf, df, what=what, holder=holder):
+                    e = holder[0]
+                    holder[0] += 1
+                    if e not in cache:
+                        cache[e] = rep_all(pf, df, e)
+                    return cache[e][what]
+                each_replica(ctx, fam, f"{what} [{policy}]", pb, db, tab, val, mk_out, rp)
 
 
 def OBJECTIVES():
+    """every approximate objective class of gpytorch.mlls that applies to a (batched) ApproximateGP with a Gaussian
+    likelihood; name -> (likelihood, model, num_data) -> callable(q(f), y) -> tensor with the batch shape (+ trailing dims)"""
+    import torch
     import gpytorch
-    return {"ELBO": gpytorch.mlls.VariationalELBO, "PLL": gpytorch.mlls.PredictiveLogLikelihood}
+    M = gpytorch.mlls
+
+    def split_terms(lik, mod, n):
+        obj = M.VariationalELBO(lik, mod, num_data=n, combine_terms=False)
+        # (log-likelihood, KL, log-prior): each has its own (broadcastable) batch shape
+        return lambda qf, y: torch.stack(list(torch.broadcast_tensors(*obj(qf, y))), -1)
+    return {"ELBO": lambda lik, mod, n: M.VariationalELBO(lik, mod, num_data=n),
+            "PLL": lambda lik, mod, n: M.PredictiveLogLikelihood(lik, mod, num_data=n),
+            "GammaRobust": lambda lik, mod, n: M.GammaRobustVariationalELBO(lik, mod, num_data=n),
+            "ELBO terms (combine_terms=False)": split_terms}
+
+
+OBJ_EVENT_DIMS = {"ELBO terms (combine_terms=False)": 1}
+DEEP = "DeepELBO (mean over batch dim 0)"
 
 
 def _var_model_cls():
@@ -1020,9 +1176,18 @@ def part_b_variational(ctx, T, pairs):
                     with torch.no_grad(), gpytorch.settings.fast_computations(False, False, False), \
                             gpytorch.settings.max_cholesky_size(10000), warnings.catch_warnings():
                         warnings.simplefilter("ignore")
-                        obs[oname] = cls(lik, mod, num_data=n)(mod(x), y)
+                        obs[oname] = cls(lik, mod, n)(qf, y)
                 except Exception as e:
                     raised(ctx, fam, pb, db, bs, e, rp, what=oname)
+            deep = None
+            if len(bs) >= 1:      # DeepApproximateMLL: the base objective averaged over the leading (sample) batch dimension
+                try:
+                    with torch.no_grad(), gpytorch.settings.fast_computations(False, False, False), \
+                            gpytorch.settings.max_cholesky_size(10000), warnings.catch_warnings():
+                        warnings.simplefilter("ignore")
+                        deep = gpytorch.mlls.DeepApproximateMLL(gpytorch.mlls.VariationalELBO(lik, mod, num_data=n))(qf, y)
+                except Exception as e:
+                    raised(ctx, fam, pb, db, bs, e, rp, what=DEEP)
             nslice = 1
             for v in pb:
                 nslice *= v
@@ -1041,11 +1206,11 @@ def part_b_variational(ctx, T, pairs):
                     o["q(f) mean"], o["q(f) covariance"] = qf.mean, qf.covariance_matrix
                     o["KL"] = r.variational_strategy.kl_divergence()
                     for oname, cls in OBJECTIVES().items():
-                        o[oname] = cls(rl, r, num_data=n)(r(data_slice(x, db, df, 2)), y.reshape(len(pidx), n)[e])
+                        o[oname] = cls(rl, r, n)(qf, y.reshape(len(pidx), n)[e])
                 return o
             cache = {}
             for what, val in obs.items():
-                ev = {"q(f) mean": 1, "KL": 0, "ELBO": 0, "PLL": 0}.get(what, 2)
+                ev = {"q(f) mean": 1, "KL": 0, "q(f) covariance": 2}.get(what, OBJ_EVENT_DIMS.get(what, 0))
                 try:
                     val = val.expand(torch.Size(tuple(bs) + tuple(val.shape[val.dim() - ev:])))
                 except RuntimeError:
@@ -1059,6 +1224,15 @@ def part_b_variational(ctx, T, pairs):
                         cache[e] = rep_all(pf, df, e)
                     return cache[e][what]
                 each_replica(ctx, fam, what, pb, db, tab, val, mk_out, rp)
+            if deep is not None and len(cache) == len(pidx):
+                ctx.case(f"b|{fam}|{DEEP}|{pb}|{db}|{_SALT[0]}", nontrivial=True)
+                want = torch.stack([cache[e]["ELBO"] for e in range(len(pidx))]).reshape(bs).mean(0)
+                if tuple(deep.shape) != tuple(want.shape) or not close(deep, want):
+                    key = f"{fam}:{DEEP}"
+                    if rank_deficient_prior_cell(fam, DEEP, pb, bs):
+                        key += ":param-batch-rank-below-broadcast-rank"
+                    ctx.fail(key, f"{fam} param batch {pb}, data batch {db}: DeepApproximateMLL(VariationalELBO) is not the mean over "
+                             f"the leading batch dimension of the non-batched replicas' ELBOs: {err(deep, want)}", dict(rp, what=DEEP))
 
 
 def part_b_model_list(ctx, lines, recs, only=None):
@@ -1100,30 +1274,35 @@ def part_b_model_list(ctx, lines, recs, only=None):
                     ctx.fail("model_list:outputs", f"IndependentModelList (member batch {mb}) output {i} of {k} is not its "
                              f"member's output: {err(o.covariance_matrix, w.covariance_matrix)}", dict(rp, member=i))
                 member_vals.append(gpytorch.mlls.ExactMarginalLogLikelihood(mdl.likelihood, mdl)(w, ys[i]))
-            smll = gpytorch.mlls.SumMarginalLogLikelihood(ml.likelihood, ml)
-            try:
-                got = smll(outs, ys)
-            except Exception as e:
-                ctx.case(f"b|sum_mll|raises|{k}|{mb}")
-                ctx.fail("sum_mll:raises", f"SumMarginalLogLikelihood over {k} members with batch {mb} raises "
-                         f"{type(e).__name__}: {str(e)[:160]}", rp)
-                got = None
-            if got is not None:
-                # the GENERATED reduction (Gen.BatchChoreo.sumMllOps) on the members' values vs what the code returned
-                lines.append(f"summllt {shp(mb)} | " + " ; ".join(" ".join(C.rat_str(x) for x in v.reshape(-1).tolist())
-                                                                  for v in member_vals))
-                recs.append(("summllt", (k, mb, list(got.shape), got.reshape(-1).tolist()), rp))
-                if tuple(got.shape) != tuple(mb):
-                    ctx.case(f"b|sum_mll|shape|{k}|{mb}")
-                    ctx.fail("sum_mll:batch-shape", f"SumMarginalLogLikelihood over {k} members with batch shape {mb} returns "
-                             f"shape {tuple(got.shape)} (value {got.reshape(-1)[:3].tolist()}): each member's MLL has shape {mb}, "
-                             f"the mean over the members must keep it", rp)
-                else:
-                    gf = got.reshape(-1)
-                    for e_ in range(gf.numel()):
-                        vals = [v.reshape(-1)[e_].item() for v in member_vals]
-                        lines.append("summll " + " ".join(C.rat_str(v) for v in vals))
-                        recs.append(("summll", (k, gf[e_].item(), vals, mb, e_), rp))
+            for tag, cls in (("", gpytorch.mlls.ExactMarginalLogLikelihood), ("_loo", gpytorch.mlls.LeaveOneOutPseudoLikelihood)):
+                if tag:
+                    member_vals = [cls(mdl.likelihood, mdl)(mdl(xs[i]), ys[i]) for i, mdl in enumerate(models)]
+                smll = gpytorch.mlls.SumMarginalLogLikelihood(ml.likelihood, ml, mll_cls=cls)
+                try:
+                    got = smll(outs, ys)
+                except Exception as e:
+                    ctx.case(f"b|sum_mll{tag}|raises|{k}|{mb}")
+                    ctx.fail(f"sum_mll{tag}:raises", f"SumMarginalLogLikelihood({cls.__name__}) over {k} members with batch {mb} raises "
+                             f"{type(e).__name__}: {str(e)[:160]}", rp)
+                    got = None
+                if got is not None:
+                    if not tag:
+                        # the GENERATED reduction (Gen.BatchChoreo.sumMllOps) on the members' values vs what the code returned
+                        lines.append(f"summllt {shp(mb)} | " + " ; ".join(" ".join(C.rat_str(x) for x in v.reshape(-1).tolist())
+                                                                          for v in member_vals))
+                        recs.append(("summllt", (k, mb, list(got.shape), got.reshape(-1).tolist()), rp))
+                    if tuple(got.shape) != tuple(mb):
+                        ctx.case(f"b|sum_mll{tag}|shape|{k}|{mb}")
+                        ctx.fail(f"sum_mll{tag}:batch-shape", f"SumMarginalLogLikelihood({cls.__name__}) over {k} members with batch shape "
+                                 f"{mb} returns shape {tuple(got.shape)} (value {got.reshape(-1)[:3].tolist()}): each member's value has "
+                                 f"shape {mb}, the mean over the members must keep it", rp)
+                    else:
+                        gf = got.reshape(-1)
+                        for e_ in range(gf.numel()):
+                            vals = [v.reshape(-1)[e_].item() for v in member_vals]
+                            lines.append("summll " + " ".join(C.rat_str(v) for v in vals))
+                            recs.append(("summll", (k, gf[e_].item(), vals, mb, e_, f"sum_mll{tag}:mean",
+                                                    f"SumMarginalLogLikelihood({cls.__name__})"), rp))
             ml.eval()
             test = [_randn(g, *mb, 2, D_IN) for _ in range(k)]
             pouts = ml(*test)
@@ -1133,6 +1312,164 @@ def part_b_model_list(ctx, lines, recs, only=None):
                 if not (close(o.mean, w.mean) and close(o.covariance_matrix, w.covariance_matrix)):
                     ctx.fail("model_list:outputs", f"IndependentModelList (member batch {mb}) posterior {i} of {k} is not its "
                              f"member's posterior: {err(o.covariance_matrix, w.covariance_matrix)}", dict(rp, member=i, mode="eval"))
+
+
+HIST_UPDATES = ("targets", "inputs", "inputs+targets", "resize", "load_state_dict")
+HIST_PRE = ("all", "props", "train", "eval", "none")
+
+
+def hist_configs(ctx_quick, rng):
+    """(members, member batch, update kind, updated member, what is read BEFORE the update)"""
+    out = []
+    for k in (2, 3):
+        for mb in ((), (2,)) if ctx_quick else ((), (2,), (2, 3)):
+            for upd in HIST_UPDATES:
+                pres = (("all", rng.choice(HIST_PRE[1:])) if k == 2 else (rng.choice(HIST_PRE),)) if ctx_quick else HIST_PRE
+                for pre in pres:
+                    out.append((k, mb, upd, rng.randrange(k), pre))
+    return out
+
+
+def part_b_model_list_hist(ctx, lines, recs, configs, only=None):
+    """Histories on ONE IndependentModelList object: read its properties / call it / evaluate the SumMLL -> replace the
+    training data of a member (`set_train_data`: targets, inputs, both, a different number of points) or load another
+    state dict into a member -> the list's `train_inputs`, `train_targets`, outputs (train and eval mode) and the standard
+    objective `SumMarginalLogLikelihood(model(*model.train_inputs), model.train_targets)` (built BEFORE the update, exact
+    MLL and LOO members) must be those of the members NOW — judged against members built from scratch with the current
+    data and state."""
+    import torch
+    import gpytorch
+    Model = _exact_model_cls()
+    for cfg in configs:
+        k, mb, upd, j, pre = cfg
+        if only is not None and [k, list(mb), upd, j, pre] != only:
+            continue
+        tag = f"{k}/{list(mb)}/{pre}>{upd}[{j}]"
+        rp = {"part": "model_list_hist", "config": [k, list(mb), upd, j, pre], "history": tag, "round": _SALT[0]}
+        g = _gen(f"mlh:{cfg}")
+        ns = [3 + i for i in range(k)]
+        models = []
+        for i in range(k):
+            mdl = Model(_randn(g, *mb, ns[i], D_IN), _randn(g, *mb, ns[i]), make_lik(mb, False), mb).double()
+            randomize(mdl, f"mlhp:{cfg}:{i}")
+            models.append(mdl)
+        ml = gpytorch.models.IndependentModelList(*models)
+        test = [_randn(g, *mb, 2, D_IN) for _ in range(k)]
+        objectives = {"exact MLL": gpytorch.mlls.SumMarginalLogLikelihood(ml.likelihood, ml),
+                      "LOO": gpytorch.mlls.SumMarginalLogLikelihood(ml.likelihood, ml, mll_cls=gpytorch.mlls.LeaveOneOutPseudoLikelihood)}
+        versions = []        # (tensor, code): which version of which member's data a tensor is
+        for i, mdl in enumerate(models):
+            versions += [(mdl.train_inputs[0], i * 1000), (mdl.train_targets, i * 1000)]
+
+        def code(t):
+            for t_, c in versions:
+                if t_ is t:
+                    return c
+            for t_, c in versions:
+                if t_.shape == t.shape and torch.equal(t_, t):
+                    return c
+            return -1
+        events, reads = [], []
+        ctxs = lambda: (torch.no_grad(), gpytorch.settings.fast_computations(False, False, False),  # noqa: E731
+                        gpytorch.settings.max_cholesky_size(10000))
+
+        def read_inputs():
+            v = ml.train_inputs
+            events.append(0)
+            reads.append([code(t[0]) for t in v])
+            return v
+
+        def read_targets():
+            v = ml.train_targets
+            events.append(1)
+            reads.append([code(t) for t in v])
+            return v
+        ctx.case(f"b|model_list_hist|{tag}", nontrivial=True, sample={"family": "model_list_hist", "history": tag})
+        try:
+            with warnings.catch_warnings():
+                warnings.simplefilter("ignore")
+                c1, c2, c3 = ctxs()
+                with c1, c2, c3:
+                    # ---- before the update
+                    if pre in ("all", "props"):
+                        read_targets()
+                        read_inputs()
+                    if pre in ("all", "train"):
+                        ml.train()
+                        outs = ml(*read_inputs())
+                        for obj in objectives.values():
+                            obj(outs, read_targets())
+                    if pre in ("all", "eval"):
+                        ml.eval()
+                        ml(*test)
+                    # ---- the update of member j
+                    mem = models[j]
+                    pos = len(events)
+                    newcode = j * 1000 + pos + 1
+                    if upd == "load_state_dict":
+                        other = Model(mem.train_inputs[0], mem.train_targets, make_lik(mb, False), mb).double()
+                        randomize(other, f"mlho:{cfg}")
+                        mem.load_state_dict(other.state_dict())
+                    else:
+                        nn_ = ns[j] + (1 if upd == "resize" else 0)
+                        nx = _randn(g, *mb, nn_, D_IN) if upd != "targets" else None
+                        ny = (_randn(g, *mb, nn_) + 1.0) if upd != "inputs" else None
+                        mem.set_train_data(inputs=nx, targets=ny, strict=(upd != "resize"))
+                        events.append(100 + 10 * j + (1 if nx is None else 2 if ny is None else 3))
+                        versions += [(t, newcode) for t in (nx, ny) if t is not None]
+                    # ---- after the update: the members NOW, rebuilt from scratch
+                    fresh = []
+                    for mdl in models:
+                        f_ = Model(mdl.train_inputs[0], mdl.train_targets, make_lik(mb, False), mb).double()
+                        f_.load_state_dict(mdl.state_dict())
+                        fresh.append(f_)
+                    li, lt = read_inputs(), read_targets()
+                    for name, got, want in (("train_inputs", [t[0] for t in li], [m_.train_inputs[0] for m_ in models]),
+                                            ("train_targets", list(lt), [m_.train_targets for m_ in models])):
+                        if len(got) != k or any(a.shape != b.shape or not torch.equal(a, b) for a, b in zip(got, want)):
+                            ctx.fail(f"model_list_hist:{name}", f"IndependentModelList.{name} after the history {tag} is not the members' "
+                                     f"current {name} (versions returned {reads[-2 if name == 'train_inputs' else -1]}, member {j} was "
+                                     f"updated to version {newcode})", dict(rp, what=name))
+                    ml.train()
+                    for f_ in fresh:
+                        f_.train()
+                    outs = ml(*ml.train_inputs)
+                    want_out = [f_(f_.train_inputs[0]) for f_ in fresh]
+                    for i, (o, w) in enumerate(zip(outs, want_out)):
+                        if not (o.mean.shape == w.mean.shape and close(o.mean, w.mean) and close(o.covariance_matrix, w.covariance_matrix)):
+                            ctx.fail("model_list_hist:outputs", f"IndependentModelList after the history {tag}: model(*model.train_inputs)[{i}] "
+                                     f"is not member {i}'s current prior: {err(o.mean, w.mean)}", dict(rp, what="outputs", member=i))
+                    for oname, obj in objectives.items():
+                        got = obj(outs, ml.train_targets)
+                        cls = gpytorch.mlls.ExactMarginalLogLikelihood if oname == "exact MLL" else gpytorch.mlls.LeaveOneOutPseudoLikelihood
+                        member_vals = [cls(f_.likelihood, f_)(w, f_.train_targets) for f_, w in zip(fresh, want_out)]
+                        if tuple(got.shape) != tuple(mb):
+                            ctx.fail("model_list_hist:sum_mll:shape", f"SumMarginalLogLikelihood({oname}) after the history {tag} has shape "
+                                     f"{tuple(got.shape)}, the members' batch shape is {mb}", dict(rp, what=oname))
+                            continue
+                        gf = got.reshape(-1)
+                        for e_ in range(gf.numel()):
+                            vals = [v.reshape(-1)[e_].item() for v in member_vals]
+                            lines.append("summll " + " ".join(C.rat_str(v) for v in vals))
+                            recs.append(("summll", (k, gf[e_].item(), vals, mb, e_, "model_list_hist:sum_mll",
+                                                    f"after the history {tag}: SumMarginalLogLikelihood({oname})(model(*model.train_inputs), "
+                                                    f"model.train_targets)"), dict(rp, what=oname, tol=1e-9)))
+                    ml.eval()
+                    pouts = ml(*test)
+                    for i, (o, f_) in enumerate(zip(pouts, fresh)):
+                        f_.eval()
+                        w = f_(test[i])
+                        if not (o.mean.shape == w.mean.shape and close(o.mean, w.mean) and close(o.covariance_matrix, w.covariance_matrix)):
+                            ctx.fail("model_list_hist:posterior", f"IndependentModelList after the history {tag}: posterior {i} is not the "
+                                     f"posterior of member {i} rebuilt from its current data and state: {err(o.mean, w.mean)}",
+                                     dict(rp, what="posterior", member=i))
+        except Exception as e:
+            ctx.fail("model_list_hist:raises", f"IndependentModelList history {tag} raises {type(e).__name__}: {str(e)[:200]} while every "
+                     f"member on its own evaluates", rp)
+            continue
+        # the GENERATED properties (Gen.BatchChoreo.modelListTrainInputs / Targets) run over the same history by the driver
+        lines.append(f"mlhist {k} | {','.join(str(c) for c in events)}")
+        recs.append(("mlhist", (reads,), rp))
 
 
 # ------------------------------------------------------------------ driver comparison / entry points
@@ -1163,16 +1500,48 @@ def compare(ctx, lines, recs):
             if not ok:
                 ctx.broke("correspondence", "generated SumMarginalLogLikelihood reduction vs the code",
                           f"`{line[:120]}`: model {rep[:160]}; code shape {gshape} values {gvals[:4]}")
+        elif kind == "norm":
+            what, c, vb, vr = data
+            ctx.case(f"a|{line}|{what}|{want.get('param_batch')}|{want.get('data_batch')}", nontrivial=True)
+            try:
+                parts = dict(kv.split("=") for kv in rep.split(";"))
+                nb, nr = int(parts["n"]), int(parts["r"])
+                ok = all(abs((a + c) * nb - (b + c) * nr) <= 1e-8 * max(1.0, abs((b + c) * nr)) for a, b in zip(vb, vr))
+            except Exception:
+                ok = False
+            if not ok:
+                ctx.broke("correspondence", f"generated normaliser of {what} vs the code",
+                          f"`{line}` -> {rep[:80]}: with v = res/N - c, (v_batched + c)*N_batched != (v_replica + c)*N_replica; "
+                          f"batched {vb[:3]} replica {vr[:3]}")
+        elif kind == "fillmask":
+            site, code_mask = data
+            ctx.case(f"a|{line}", nontrivial=True)
+            r = parse_reply(rep)
+            if not isinstance(r, dict) or r.get("flat") != code_mask:
+                ctx.broke("correspondence", f"generated 'fill' mask (site {site}) vs the code",
+                          f"`{line}`\nmodel: {str(r)[:200]}\ncode : {code_mask}")
+        elif kind == "mlhist":
+            (reads,) = data
+            ctx.case(f"a|{line}|{want.get('history')}", nontrivial=True)
+            try:
+                body = rep.split(";")[0][len("r="):]
+                mreads = [[] if t in ("-", "") else [int(v) for v in t.split(",")] for t in body.split("/")] if body else []
+            except Exception:
+                mreads = None
+            if mreads != reads:
+                ctx.broke("correspondence", "generated IndependentModelList properties vs the code",
+                          f"history {want.get('history')} `{line}`: model reads {mreads}, code reads {reads}")
         elif kind == "summll":
-            k, got, vals, mb, e_ = data
-            ctx.case(f"b|sum_mll|{k}|{mb}|{e_}", nontrivial=k > 1)
+            k, got, vals, mb, e_, key, desc = data
+            ctx.case(f"b|{key}|{k}|{mb}|{e_}|{want.get('history', '')}", nontrivial=k > 1)
             try:
                 exact = float(C.parse_rat(rep))
             except Exception:
                 ctx.broke("correspondence", "summll reply", rep[:200])
                 continue
-            if abs(got - exact) > 1e-12 * max(1.0, abs(exact)):
-                ctx.fail("sum_mll:mean", f"SumMarginalLogLikelihood of {k} members (member batch {mb}, batch element {e_}) returns "
+            tol = want.get("tol", 1e-12)
+            if not abs(got - exact) <= tol * max(1.0, abs(exact)):
+                ctx.fail(key, f"{desc} of {k} members (member batch {mb}, batch element {e_}) returns "
                          f"{got!r}, the mean of the members' values {vals} is {exact!r}", want)
     ctx.count("model_mismatches_a", mism)
 
@@ -1181,14 +1550,16 @@ def correspondence(ctx, want_driver=True):
     import torch
     torch.set_num_threads(2)
     torch.set_default_dtype(torch.float64)
+    del _TIE[:]
     try:
         rng = ctx.rng("pairs")
         P = pairs_all()
         if ctx.quick:
             sel = {"kernels": pairs_cover(rng, 6), "means": P, "liks": pairs_cover(rng, 20),
-                   "exact": pairs_cover(rng, 4), "var": pairs_cover(rng, 0), "mixed": None}
+                   "exact": pairs_cover(rng, 4), "var": pairs_cover(rng, 0), "mixed": None,
+                   "nan": NAN_PAIRS_QUICK + rng.sample([x for x in P if x not in NAN_PAIRS_QUICK], 3)}
         else:
-            sel = {k: P for k in ("kernels", "means", "liks", "exact", "var")}
+            sel = {k: P for k in ("kernels", "means", "liks", "exact", "var", "nan")}
             sel["mixed"] = None
         ctx.notes["pairs_total"] = len(P)
         ctx.notes["pairs_used"] = {k: len(v) for k, v in sel.items() if v is not None}
@@ -1209,7 +1580,7 @@ def correspondence(ctx, want_driver=True):
                 import traceback
                 ctx.broke("correspondence", "part_b_kernels (k == n) crashed", traceback.format_exc())
             for part, key in ((part_b_kernels, "kernels"), (part_b_means, "means"), (part_b_likelihoods, "liks"),
-                              (part_b_exact, "exact"), (part_b_mixed, "mixed"), (part_b_variational, "var")):
+                              (part_b_exact, "exact"), (part_b_mixed, "mixed"), (part_b_variational, "var"), (part_b_nan, "nan")):
                 try:
                     part(ctx, T, sel[key])
                 except Exception:      # one family crashing must not hide the others
@@ -1222,6 +1593,14 @@ def correspondence(ctx, want_driver=True):
             part_b_model_list(ctx, lines, recs)
         except Exception:
             ctx.broke("correspondence", "part_b_model_list crashed", traceback.format_exc())
+        try:
+            part_b_model_list_hist(ctx, lines, recs, hist_configs(ctx.quick, ctx.rng("hist")))
+        except Exception:
+            ctx.broke("correspondence", "part_b_model_list_hist crashed", traceback.format_exc())
+        for ln, rc in _TIE:
+            lines.append(ln)
+            recs.append(rc)
+        del _TIE[:]
         try:
             part_a(ctx, lines, recs)
         except Exception:
@@ -1264,8 +1643,28 @@ def search(ctx, broken):
         part_b_likelihoods(ctx, T, pairs_cover(rng, 20))
         part_b_exact(ctx, T, pairs_cover(rng, 4))
         part_b_variational(ctx, T, pairs_cover(rng, 0))
+        part_b_nan(ctx, T, NAN_PAIRS_QUICK)
+        lines, recs = [], []
+        part_b_model_list(ctx, lines, recs)
+        part_b_model_list_hist(ctx, lines, recs, hist_configs(True, ctx.rng("hist")))
+        compare_mirror(ctx, lines, recs)
     finally:
+        del _TIE[:]
         torch.set_default_dtype(torch.float32)
+
+
+def compare_mirror(ctx, lines, recs):
+    """the driver is not available: judge the `summll` records with an exact Python mirror (mean of the members' values
+    in rational arithmetic); records that only tie the generated code to the implementation are skipped"""
+    from fractions import Fraction
+    for (kind, data, want), line in zip(recs, lines):
+        if kind != "summll":
+            continue
+        k, got, vals, mb, e_, key, desc = data
+        exact = float(sum((Fraction(v) for v in vals), Fraction(0)) / len(vals))
+        if not abs(got - exact) <= want.get("tol", 1e-12) * max(1.0, abs(exact)):
+            ctx.fail(key, f"{desc} of {k} members (member batch {mb}, batch element {e_}) returns {got!r}, the mean of the "
+                     f"members' values {vals} is {exact!r}", want)
 
 
 def replay(ctx, payload):
@@ -1297,6 +1696,15 @@ def replay(ctx, payload):
             part_b_model_list(sub, lines, recs, only=(c["members"], c.get("member_batch", [])))
             if lines:
                 compare(sub, lines, recs)
+            return not sub.failures
+        if c.get("part") == "model_list_hist":
+            lines, recs = [], []
+            part_b_model_list_hist(sub, lines, recs, [tuple([c["config"][0], tuple(c["config"][1])] + c["config"][2:])], only=c["config"])
+            compare_mirror(sub, lines, recs)
+            return not sub.failures
+        if c.get("part") == "nan":
+            pb, db = tuple(c["param_batch"]), tuple(c["data_batch"])
+            part_b_nan(sub, Tables([(pb, db)]), [(pb, db)], only=c["policy"])
             return not sub.failures
         if c.get("part") == "mixed":
             part_b_mixed(sub, Tables(pairs_all()), only=[c["mean_batch"], c["kernel_batch"], c["x_batch"]])
